@@ -904,7 +904,7 @@ pub fn exp_c11(e: &mut Exp) {
     // the same with weighted inserts (integer multiplicities, tiny and huge weights) and every
     // scale function: the centroid count must not depend on how the weight is distributed
     fn td_weighted<S: ScaleFunction + Clone + std::fmt::Debug>(e: &mut Exp, name: &str, sf: S, delta: f64, bl: usize, lens: &[u64]) {
-        for wmode in 0..3u64 {
+        for wmode in 0..5u64 {
             let mut d = TDigest::new(sf.clone(), bl);
             let base = crate::alloc::live();
             let doc = 16 * (delta as usize + 3 + bl + 1) * 2;
@@ -915,7 +915,10 @@ pub fn exp_c11(e: &mut Exp) {
                     let w = match wmode {
                         0 => 1.0 + sm.below(50) as f64,
                         1 => if sm.chance(1, 2) { 1e-6 } else { 1e6 },
-                        _ => 0.5 + sm.f01(),
+                        2 => 0.5 + sm.f01(),
+                        // every weight below 1 (a sample count derived from the weights stays 0)
+                        3 => 0.05 + 0.9 * sm.f01(),
+                        _ => if sm.chance(1, 2) { 1e-6 } else { 0.25 },
                     };
                     d.insert_weighted(sm.f01() * 100.0, w);
                     i += 1;
@@ -1104,6 +1107,28 @@ pub fn exp_glue(e: &mut Exp, prop: &str) {
     use std::hash::BuildHasherDefault;
     type Bh = BuildHasherDefault<DefaultHasher>;
     let rounds = 20 * e.scale;
+    if prop == "C17" || prop == "C03" {
+        // bulk ingestion through both Extend impls at the largest precisions: every register index
+        // (17 and 18 bits wide) must be reachable, and the result is that of repeated add
+        for b in [16usize, 17, 18] {
+            let n = 40_000u64;
+            let keys: Vec<u64> = (0..n).map(|i| i.wrapping_mul(0x9E3779B97F4A7C15) ^ e.rng.next()).collect();
+            let mut a = HyperLogLog::<u64>::new(b);
+            let mut c = HyperLogLog::<u64>::new(b);
+            let mut c2 = HyperLogLog::<u64>::new(b);
+            for x in &keys {
+                a.add(x);
+            }
+            c.extend(keys.iter().cloned());
+            for chunk in keys.chunks(4097) {
+                c2.extend(chunk.iter());
+            }
+            e.evals += 1;
+            if a.registers() != c.registers() || a.registers() != c2.registers() || a.count() != c.count() || a.count() != c2.count() {
+                e.fails.push(format!("hll b={}: Extend of {} keys gives other registers / count than repeated add (count {} / {} / {})", b, n, a.count(), c.count(), c2.count()));
+            }
+        }
+    }
     for _ in 0..rounds {
         let keys: Vec<u64> = (0..60).map(|_| e.rng.below(200)).collect();
         let probes: Vec<u64> = (0..200).collect();
@@ -1209,7 +1234,7 @@ pub fn exp_glue(e: &mut Exp, prop: &str) {
                 e.evals += 1;
             }
             "C17" | "C03" => {
-                let b = e.rng.range(4, 12) as usize;
+                let b = if e.rng.chance(1, 5) { e.rng.range(13, 18) } else { e.rng.range(4, 12) } as usize;
                 let mut a = HyperLogLog::<u64>::new(b);
                 let mut g = HyperLogLog::<u64, Bh>::with_hash(b, Bh::default());
                 let mut c = HyperLogLog::<u64>::new(b);
